@@ -36,6 +36,7 @@ type Call struct {
 	TagSet []string          `json:"tagset"`
 	Rep    int               `json:"rep,omitempty"`  // issue the call rep more times with the very same argument slices
 	Twin   bool              `json:"twin,omitempty"` // repeats the previous call through the stop-tag variant of its method (C14)
+	Pin    bool              `json:"pin,omitempty"`  // locals sessions (C15): this call injects the plain name gp (as a pointer)
 }
 
 func EngineCall(g *engine.Gengine, rb *builder.RuleBuilder, c *Call, st *engine.Stag) error {
